@@ -151,10 +151,65 @@ def replay_allocator(rec):
     done(False, f"no failing schedule among {len(specs)} candidates for {rec['obligation']}")
 
 
+def replay_start_benchmark(rec):
+    """the real Driver.start_benchmark with recording stubs: every worker is started with exactly the matrix rows of ITS clients"""
+    import logging
+    import types
+
+    from esrally.driver import driver
+    from esrally.track import track
+
+    logging.disable(logging.CRITICAL)
+    n = 0
+    for hosts in ([("h0", 4)], [("h0", 2), ("h1", 3)], [("h0", 1)], [("h0", 8), ("h1", 8)]):
+        for clients in (1, 3, 8, 16):
+            n += 1
+            op = track.Operation("op", "bulk", {})
+            schedule = [track.Task("t1", op, clients=clients), track.Parallel([track.Task("t2", op, clients=max(1, clients // 2)), track.Task("t3", op, clients=1)])]
+            d = driver.Driver.__new__(driver.Driver)
+            d.logger = logging.getLogger("probe")
+            started = []
+            d.driver_actor = types.SimpleNamespace(create_client=lambda host, cfg, wid: ("worker", host, wid),
+                                                   start_worker=lambda w, wid, cfg, trk, allocs, client_contexts=None: started.append((w, wid, allocs, client_contexts)))
+            d.telemetry = types.SimpleNamespace(on_benchmark_start=lambda: None)
+            d.reset_relative_time = lambda: None
+            d.update_progress_message = lambda *a, **k: None
+            d.challenge = types.SimpleNamespace(schedule=schedule)
+            opts = types.SimpleNamespace(all_client_options={"default": {}})
+            d.config = types.SimpleNamespace(opts=lambda *a, **k: opts)
+            d.track, d.default_sync_es_client = None, None
+            d.load_driver_hosts = [{"host": h, "cores": c} for h, c in hosts]
+            d.clients_per_worker, d.client_contexts, d.workers = {}, {}, []
+            d.start_benchmark()
+            width = len(d.allocations)
+            seen = []
+            for w, wid, allocs, ctxs in started:
+                ids = [a["client_id"] for a in allocs.allocations]
+                if len(set(ids)) != len(ids):
+                    done(True, f"hosts {hosts}, {clients} clients: worker {wid} was started with client ids {ids} (duplicates)")
+                if sorted(ids) != sorted(ctxs):
+                    done(True, f"hosts {hosts}, {clients} clients: worker {wid} was started with the allocations of clients {ids} but has contexts for {sorted(ctxs)}")
+                for a in allocs.allocations:
+                    if a["tasks"] is not d.allocations[a["client_id"]]:
+                        done(True, f"worker {wid}: the tasks of client {a['client_id']} are not row {a['client_id']} of the allocation matrix")
+                seen += ids
+            if sorted(seen) != list(range(width)):
+                done(True, f"hosts {hosts}, {clients} clients: workers were started with client ids {sorted(seen)}; the matrix has rows 0..{width - 1} (each client exactly once)")
+            sizes = {}
+            for w, wid, allocs, ctxs in started:
+                sizes.setdefault(w[1], []).append(len(allocs.allocations))
+            for h, ls in sizes.items():
+                if max(ls) - min(ls) > 1:
+                    done(True, f"hosts {hosts}, {clients} clients: worker loads on {h} are {ls} (differ by more than one client)")
+    done(False, f"no failing configuration among {n} for {rec['obligation']}")
+
+
 if __name__ == "__main__":
     rec = load()
     if "calculate_worker_assignments" in rec["target"]:
         replay_cwa(rec)
+    if "start_benchmark" in rec["target"]:
+        replay_start_benchmark(rec)
     if "Allocator" in rec["target"] or "TaskAllocation" in rec["target"]:
         replay_allocator(rec)
     done(False, "no adapter for " + rec["target"])
